@@ -376,6 +376,9 @@ func (f *Frame) applyContract(spec *UnitSpec, name string, c *ssa.CallCommon, si
 			st.ghost[m] = u.defs.Fresh("gh_"+m, srt)
 		}
 	}
+	if spec.FrameAssumed {
+		u.AssumedUse["frame of "+name+" (preserves "+strings.Join(spec.Preserves, ", ")+") is assumed"] = true
+	}
 	switch {
 	case len(spec.Preserves) > 0:
 		u.havocAllExcept(st, itemsMatchers(spec.Preserves, spec.Pkg))
